@@ -13,10 +13,12 @@ import (
 	"flag"
 	"fmt"
 	"math"
+	"math/big"
 	"os"
 	"path/filepath"
 	"reflect"
 	"strconv"
+	"strings"
 
 	"github.com/kaptinlin/gozod"
 	"github.com/kaptinlin/gozod/pkg/validate"
@@ -67,6 +69,51 @@ var intKinds = []numKind{
 }
 var floatKinds = []numKind{{"f32", true, 32, true}, {"f64", true, 64, true}}
 
+// uintptr: the thirteenth clause of toNum (held in the uint64 payload).
+var uptrKind = numKind{"uptr", false, 64, false}
+
+// Named numeric types, complex numbers and big integers: numeric values that toNum does not hold.
+// compareNumeric / MultipleOf send them through coerce.ToFloat64 (named types: not numeric at
+// all, every check answers false).  The model for these operands is Drv/C16.lean `xval`.
+type (
+	myInt     int
+	myUint8   uint8
+	myInt64   int64
+	myFloat64 float64
+	myUintptr uintptr
+)
+
+type extOp struct {
+	tok string
+	val any
+}
+
+func extOperands() []extOp {
+	var out []extOp
+	named := func(v any) { out = append(out, extOp{"nx 0", v}) }
+	named(myInt(5))
+	named(myInt(-5))
+	named(myUint8(200))
+	named(myInt64(math.MaxInt64))
+	named(myFloat64(1.5))
+	named(myUintptr(7))
+	for _, c := range []complex128{complex(3, 4), complex(-3, 0), complex(0, 0), complex(1<<53+2, 0), complex(0, -2.5), complex(1e308, 1e308), complex(math.NaN(), 0), complex(math.Inf(1), 0), complex(0.1, 0)} {
+		mag := math.Sqrt(real(c)*real(c) + imag(c)*imag(c))
+		out = append(out, extOp{"cx " + strconv.FormatUint(math.Float64bits(mag), 10), c})
+		c64 := complex64(c)
+		c2 := complex128(c64)
+		mag2 := math.Sqrt(real(c2)*real(c2) + imag(c2)*imag(c2))
+		out = append(out, extOp{"cx " + strconv.FormatUint(math.Float64bits(mag2), 10), c64})
+	}
+	for _, s := range []string{"0", "5", "-5", "9007199254740993", "18446744073709551616", "-18446744073709551617", "340282366920938463463374607431768211456"} {
+		n, _ := new(big.Int).SetString(s, 10)
+		out = append(out, extOp{"big " + s, n})
+	}
+	huge := new(big.Int).Lsh(big.NewInt(1), 1024)
+	out = append(out, extOp{"big " + huge.String(), huge})
+	return out
+}
+
 // numVal is a number of a given kind: integers as (neg, magnitude), floats as float64 (widened).
 type numVal struct {
 	k numKind
@@ -97,6 +144,8 @@ func (v numVal) goValue() any {
 		return v.u
 	case "uint":
 		return uint(v.u)
+	case "uptr":
+		return uintptr(v.u)
 	case "f32":
 		return float32(v.f)
 	case "f64":
@@ -266,7 +315,7 @@ func runC16(c hx.Config) error {
 	}
 	r := hx.NewRng(c.Seed)
 	thorough := c.Thorough()
-	all := append(append([]numKind{}, intKinds...), floatKinds...)
+	all := append(append(append([]numKind{}, intKinds...), floatKinds...), uptrKind)
 	grids := map[string][]numVal{}
 	for _, k := range all {
 		grids[k.name] = gridFor(k)
@@ -370,7 +419,7 @@ func runC16(c hx.Config) error {
 		n3 = 600000
 	}
 	for i := 0; i < n3; i++ {
-		k := hx.Pick(r, all)
+		k := hx.Pick(r, all[:len(all)-1]) // no schema type holds a uintptr
 		a := hx.Pick(r, grids[k.name])
 		variant := r.Intn(2)
 		ptrIn := r.Chance(30)
@@ -421,6 +470,41 @@ func runC16(c hx.Config) error {
 				continue
 			}
 			emitMul(a, d, how+mm, acc)
+		}
+	}
+	// (4) operands toNum does not hold (named types, complex, big.Int) against every built-in kind,
+	// both orders, every operator and MultipleOf: the coerce.ToFloat64 path of compareNumeric.
+	exts := extOperands()
+	n4 := 6
+	if thorough {
+		n4 = 60
+	}
+	for _, e := range exts {
+		for _, k := range all {
+			for j := 0; j < n4; j++ {
+				p := hx.Pick(r, grids[k.name])
+				if r.Chance(30) {
+					p = numVal{k: k, i: int64(r.Intn(11) - 5), u: uint64(r.Intn(6)), f: float64(r.Intn(11)-5) / 2}
+					if !k.signed && !k.float {
+						p.i = 0
+					}
+				}
+				op := hx.Pick(r, cmpOps)
+				v1 := directCmp(op, e.val, p.goValue())
+				o.Emit(fmt.Sprintf("c16 xcmp %s %s %s #direct", op, e.tok, p.token()), hx.B01(v1))
+				v2 := directCmp(op, p.goValue(), e.val)
+				o.Emit(fmt.Sprintf("c16 xcmp %s %s %s #direct", op, p.token(), e.tok), hx.B01(v2))
+				v3 := validate.MultipleOf(p.goValue(), e.val)
+				o.Emit(fmt.Sprintf("c16 xmul %s %s #direct", p.token(), e.tok), hx.B01(v3))
+				v4 := validate.MultipleOf(e.val, p.goValue())
+				o.Emit(fmt.Sprintf("c16 xmul %s %s #direct", e.tok, p.token()), hx.B01(v4))
+				o.Count("xcmp:d:" + strings.SplitN(e.tok, " ", 2)[0] + ":" + k.name)
+			}
+		}
+		for _, e2 := range exts {
+			op := hx.Pick(r, cmpOps)
+			o.Emit(fmt.Sprintf("c16 xcmp %s %s %s #direct", op, e.tok, e2.tok), hx.B01(directCmp(op, e.val, e2.val)))
+			o.Emit(fmt.Sprintf("c16 xmul %s %s #direct", e.tok, e2.tok), hx.B01(validate.MultipleOf(e.val, e2.val)))
 		}
 	}
 	return o.Close(map[string]any{"seed": c.Seed, "tier": c.Tier})
